@@ -87,9 +87,16 @@ def builtin_glue(needs_module: str) -> Callable[[InstallGlueFn], InstallGlueFn]:
 
     def decorate(fn: InstallGlueFn) -> InstallGlueFn:
         assert needs_module not in builtin_glue_pending
-        if needs_module in sys.modules and "sphinx" not in sys.modules:
+        module = sys.modules.get(needs_module)
+        if (
+            module is not None
+            and "sphinx" not in sys.modules
+            and not hasattr(module, "_stackscope_install_glue_")
+        ):
             fn()
         else:
+            # Not loaded yet, or it brings its own glue, which takes
+            # precedence: let add_glue_as_needed() sort that out
             builtin_glue_pending[needs_module] = fn
         return fn
 
